@@ -3,8 +3,17 @@ def J(step, slice_, maxpts, series, perm, gran=1000, unwind=24):
             "params": {"stepSec": step, "sliceSec": slice_, "maxPts": maxpts, "series": series, "perm": perm, "granMs": gran},
             "unwind": unwind, "reach": ["sliced", "end"]}
 
+def RQ(step, slice_, maxpts, gran=1000):
+    return {"name": "rq-st%d-sl%d-n%d-g%d" % (step, slice_, maxpts, gran), "func": "VerifHarness_RangeQuery",
+            "params": {"stepSec": step, "sliceSec": slice_, "maxPts": maxpts, "granMs": gran}, "unwind": 24, "reach": ["sliced", "end"]}
+
 def jobs(tier):
     out = []
+    # the real Prometheus.RangeQuery under the fork-join model: slice size is (2h).Round(step)
+    if tier == "quick":
+        out += [RQ(3600, 7200, 5), RQ(2700, 8100, 6)]
+    else:
+        out += [RQ(3600, 7200, 6), RQ(2700, 8100, 7), RQ(3000, 6000, 6), RQ(2400, 7200, 7), RQ(3600, 7200, 5, gran=500), RQ(7200, 7200, 5)]
     if tier == "quick":
         for (st, sl) in [(60, 120), (60, 180), (420, 840), (3600, 7200)]:
             out.append(J(st, sl, 5, 1, 0))
@@ -21,12 +30,12 @@ def jobs(tier):
 
 PROP = {
     "level_text": "Bounded symbolic model checking of pint's real slice/fold/merge code (sliceRange, AppendSampleToRanges, ExpandRangesEnd, MergeRanges, Overlaps, MetricTimeRanges sorting): for symbolic start/end alignment and every presence pattern within the bound, the solver shows sliced == unsliced == independent maximal-run spec, for the listed arrival orders.",
-    "level_note": "The harness composes the kernels the way Prometheus.RangeQuery does (per-slice server answers, concatenation in arrival order, MergeRanges, sort.Stable); RangeQuery's own goroutine/channel glue and its slice-size computation are outside the claim. time.Time is modelled as int64 nanoseconds (wall clock, UTC); labels.Labels.Hash as an injective fingerprint.",
-    "runs": [{"pkg": "./internal/promapi", "harness": ["harness/C13/slices.go"], "intmode": True, "jobs": jobs}],
+    "level_note": "Two harness families: (rq-*) the REAL Prometheus.RangeQuery (slice-size computation, sliceRange, one goroutine per slice, collection loop, MergeRanges, final sort) executed under the engine's fork-join model, in which every order of running the slice goroutines — i.e. every arrival order of slice responses — is explored, the harness playing the worker pool; (st*-) the kernels composed by the harness for small slice sizes that RangeQuery itself never picks (more slices per window). time.Time is modelled as int64 nanoseconds (wall clock, UTC); labels.Labels.Hash as an injective fingerprint.",
+    "runs": [{"pkg": "./internal/promapi", "harness": ["harness/C13/slices.go", "harness/C13/rangequery.go"], "intmode": True, "jobs": jobs}],
     "bounds": {"step/slice seconds": "quick (60,120) (60,180) (420,840) (3600,7200); thorough adds 15 s..50 min steps incl. (2h).Round(step) for 45 and 50 min",
                "grid points": "<= 5 (quick) / 6 (thorough)", "start": "symbolic over two slice widths at 1 s (thorough also 0.5 s) granularity", "series": "1 (thorough also 2)",
                "arrival orders": "quick: identity and one transposition; thorough: all 6 orders of up to 3 slices"},
     "assumptions": ["a series has samples exactly at the present instants of the step grid anchored at the first slice's start (Prometheus staleness/lookback not modelled)",
                     "labels.Labels.Hash is collision free"],
-    "outside": ["HTTP/JSON streaming", "RangeQuery's goroutine collection loop, cancellation and retries", "time.Now-relative ranges"],
+    "outside": ["HTTP/JSON streaming", "error/cancellation paths of the collection loop", "true parallelism of the slice goroutines (tasks run one at a time in every order)", "time.Now-relative ranges"],
 }
